@@ -66,7 +66,9 @@ fn construct(s: &Script) -> CompressorOxide {
     let level = s.c("level");
     let strategy = s.c("strategy");
     let wb = s.c_or("window_bits", 15);
-    let fmt = if zlib { DataFormat::Zlib } else { DataFormat::Raw };
+    // the enum's two zlib members ("ZLibIgnoreChecksum behaves the same as Zlib for compression") alternate as a
+    // function of the configuration only
+    let fmt = if zlib { if (level + strategy + wb).rem_euclid(3) == 2 { DataFormat::ZLibIgnoreChecksum } else { DataFormat::Zlib } } else { DataFormat::Raw };
     match s.c("ctor") {
         1 => CompressorOxide::new(create_comp_flags_from_zip_params(level as i32, if zlib { wb as i32 } else { -(wb as i32) }, strategy as i32)),
         2 => CompressorOxide::default(),
@@ -109,7 +111,7 @@ pub fn apply_setters(s: &Script, d: &mut CompressorOxide) {
                 d.set_compression_level(l);
             }
             2 => d.set_compression_level_raw(level),
-            _ => d.set_format_and_level(if s.c(&format!("{}_zlib", pre)) != 0 { DataFormat::Zlib } else { DataFormat::Raw }, level),
+            _ => d.set_format_and_level(if s.c(&format!("{}_zlib", pre)) != 0 { if level % 3 == 2 { DataFormat::ZLibIgnoreChecksum } else { DataFormat::Zlib } } else { DataFormat::Raw }, level),
         }
     }
 }
@@ -194,7 +196,13 @@ pub fn run_pipe(s: &Script, plain: &[u8], ops: &[Vec<i64>], st: &mut Stats) -> R
         // the compressor has been used for an earlier (abandoned or finished) stream and was reset
         let junk = &plain[..plain.len().min(s.c("pre_reset") as usize)];
         let mut tmp = vec![0u8; junk.len() + 400];
-        let _ = compress(&mut d, junk, &mut tmp, if s.c("pre_reset") % 2 == 0 { TDEFLFlush::Finish } else { TDEFLFlush::Sync });
+        let _ = compress(&mut d, junk, &mut tmp, match s.c("pre_reset") % 4 {
+            0 => TDEFLFlush::Finish,
+            1 => TDEFLFlush::Sync,
+            // abandoned with tokens recorded but no block emitted yet
+            2 => TDEFLFlush::None,
+            _ => TDEFLFlush::Full,
+        });
         d.reset();
         st.inc("probe.compressor_reused_after_reset");
         if s.c("setter_before_reset") == 0 {
